@@ -1127,17 +1127,29 @@ func discoverErrUse(p *Program, pkgs map[string]bool, report func(fn *ssa.Functi
 				continue
 			}
 			used, returns := false, false
+			joins := len(bad.Preds) != 1
 			for _, d := range fn.Blocks {
-				// code executed only on failure; when the failing edge joins other paths at
-				// once (`if !changed || err != nil { return err }`), the join block itself
-				if !(len(bad.Preds) == 1 && bad.Dominates(d)) && d != bad {
+				// code executed only on failure; when the failing edge joins other paths at once
+				// (`if err == nil { ... }` or `if !changed || err != nil { return err }`) nothing
+				// runs only on failure, and the error counts as used if anything downstream reads it
+				if joins {
+					if d != bad && !blockReaches(bad, d) {
+						continue
+					}
+				} else if !bad.Dominates(d) {
 					continue
 				}
 				for _, ins := range d.Instrs {
-					if _, isRet := ins.(*ssa.Return); isRet {
+					if _, isRet := ins.(*ssa.Return); isRet && (!joins || d == bad) {
 						returns = true
 					}
 					if _, isDbg := ins.(*ssa.DebugRef); isDbg {
+						continue
+					}
+					if v, isV := ins.(ssa.Value); isV && v == iff.Cond {
+						continue // the test itself (reached again on the next turn of a loop)
+					}
+					if ta, isTA := ins.(*ssa.TypeAssert); isTA && ta.X == ev && alt != nil {
 						continue
 					}
 					for _, op := range ins.Operands(nil) {
